@@ -374,9 +374,10 @@ class Engine:
         """
         # TODO: Maybe a property setter like input_values.
         # an output variable without activations holds a single value (eg, nan) regardless of the batch size
-        values = np.broadcast_arrays(
-            *(np.atleast_1d(output_variable.value) for output_variable in self.output_variables)
-        )
+        # (so do all of them when no rule block or output variable is enabled: the rows are those of the input values)
+        variables = [*self.input_variables, *self.output_variables]
+        values = np.broadcast_arrays(*(np.atleast_1d(variable.value) for variable in variables))
+        values = values[len(self.input_variables) :]
         result = np.column_stack(values) if values else np.array(values)
         return result
 
